@@ -7,7 +7,7 @@ export CARGO_NET_OFFLINE=true
 python3 -c "
 import sys; sys.path.insert(0, '.')
 from checks import tsrc
-print(tsrc.regenerate())"
+print(tsrc.regenerate_all())"
 MODS=$(python3 -c "
 import json
 idx = json.load(open('props_index.json'))
